@@ -6,7 +6,8 @@
 (***************************************************************************)
 EXTENDS Separation, TLC, Json, Randomization
 
-CONSTANTS Family, RndN, RndK
+CONSTANTS Family, RndN, RndK,
+          Grows   \* enable the history action Grow
 
 VARIABLES g, phase, sep, sig, dev
 
@@ -32,6 +33,10 @@ Graphs ==
     [] Family = "D5"  -> {MkG(1..5, {<<1, 3>>, <<2, 3>>, <<3, 4>>, <<3, 5>>} \cup d2, b) :
                              d2 \in SUBSET {<<4, 5>>, <<1, 4>>, <<2, 5>>},
                              b \in SUBSET {{1, 3}, {4, 5}, {1, 2}}}
+    \* every topologically numbered DAG on 5 nodes (diamonds with tails, bottlenecks before / after parallel routes)
+    [] Family = "DAG5o" -> {MkG(1..5, d, {}) : d \in SUBSET FwdPairs(5)}
+    \* sparse topologically numbered 5-node ADMGs with exactly one bidirected edge
+    [] Family = "B5o" -> {MkG(1..5, d, {b}) : d \in {x \in SUBSET FwdPairs(5) : Cardinality(x) <= 5}, b \in UPairs(5)}
     [] Family = "RND" -> RandomADMGs
 
 Init == /\ g \in Graphs /\ phase = "chosen" /\ sep = {} /\ sig = {} /\ dev = {}
@@ -44,8 +49,26 @@ Compute == /\ phase = "chosen"
            \* triples on which the named deviation (y0's path criterion) differs from the ideal
            /\ dev' = {t \in Triples(g) : SigmaY0Sep(g, t[1], t[2], t[3]) # SigmaSep(g, t[1], t[2], t[3])}
 
-Next == Compute
+\* History: the same graph object grows by one edge (NxMixedGraph.add_directed_edge / add_undirected_edge) after
+\* it has been queried.  The verdict table is a function of the graph alone - nothing computed before the edge was
+\* added may survive - and a new edge can only destroy separations.  The harness replays Grow steps on one real
+\* object: query every triple on g, add the edge, query every triple again (drive_sep.py, scenario "history").
+NewEdges == {[k |-> "d", e |-> p] : p \in {q \in g.n \X g.n : q[1] # q[2] /\ q \notin g.d}}
+            \cup {[k |-> "b", e |-> p] : p \in {q \in SUBSET g.n : Cardinality(q) = 2 /\ q \notin g.b}}
+GrowTo(x) == IF x.k = "d" THEN MkG(g.n, g.d \cup {x.e}, g.b) ELSE MkG(g.n, g.d, g.b \cup {x.e})
+Grow == /\ phase = "done" /\ Grows
+        /\ \E x \in NewEdges : LET h == GrowTo(x) IN
+              /\ h \in Graphs
+              /\ g' = h /\ phase' = "done"
+              /\ sep' = IF IsAcyclic(h) THEN SepTable(h) ELSE {}
+              /\ sig' = {t \in Triples(h) : SigmaSep(h, t[1], t[2], t[3])}
+              /\ dev' = {t \in Triples(h) : SigmaY0Sep(h, t[1], t[2], t[3]) # SigmaSep(h, t[1], t[2], t[3])}
+
+Next == Compute \/ Grow
 Spec == Init /\ [][Next]_vars
+
+\* adding an edge never creates a separation (m-separation and sigma-separation are anti-monotone in the edge set)
+GrowAntiMonotone == [][(phase = "done" /\ phase' = "done") => (sep' \subseteq sep /\ sig' \subseteq sig)]_vars
 
 Done == phase = "done"
 
